@@ -568,9 +568,22 @@ op('teepickle', ['g'], lambda t, ctx: etl.teepickle(t, os.path.join(ctx, 'tee.p'
 op('teetext', ['g'], lambda t, ctx: etl.teetext(t, os.path.join(ctx, 'tee.txt'), template='{k}|{v}\n'),
    ('ctx', 'notee') + S0)
 op('teehtml', ['g'], lambda t, ctx: etl.teehtml(t, os.path.join(ctx, 'tee.html')), ('ctx', 'notee') + S0)
+# per-row / per-cell style callables take a different branch of TeeHTMLView.__iter__ (wave 9)
+op('teehtml(tr_style callable)', ['g'], lambda t, ctx: etl.teehtml(
+    t, os.path.join(ctx, 'tee3.html'), tr_style=_trstyle), ('ctx', 'notee') + S0)
+op('teehtml(td_styles callable)', ['g'], lambda t, ctx: etl.teehtml(
+    t, os.path.join(ctx, 'tee4.html'), td_styles=_tdstyle), ('ctx', 'notee') + S0)
 
 
 # ---- helper callables (module level so that they have stable names) -------------------------
+
+def _trstyle(row):
+    return 'color: red'
+
+
+def _tdstyle(v):
+    return 'color: blue'
+
 
 def _ctxquery(prv, cur, nxt):
     return (None if prv is None else prv[0], cur[0], None if nxt is None else nxt[0])
